@@ -7,8 +7,9 @@ import time
 VERIF = os.path.dirname(os.path.dirname(os.path.dirname(os.path.abspath(__file__))))
 REPO = os.environ.get('VERIF_REPO', '/repo')
 SPEC = os.path.join(VERIF, 'spec')
-WORK = os.path.join(VERIF, '.work')
-EVIDENCE = os.path.join(VERIF, 'evidence')
+WORK = os.path.join(VERIF, '.work') if REPO == '/repo' else os.path.join(VERIF, '.work', 'alt-' + os.path.basename(REPO))
+# try_mutant.sh redirects evidence so that runs against a mutated scratch tree never overwrite real evidence
+EVIDENCE = os.environ.get('VERIF_EVIDENCE_DIR') or os.path.join(VERIF, 'evidence')
 REPLAYS = os.path.join(VERIF, 'replays')
 PY = '/venv/bin/python'
 GUARD = 'SKOOLKIT_VERIF'
